@@ -68,4 +68,14 @@ def sendFunc (m : SMode) : List (Option SErr) → Nat → Nat × Final
         (n + 1, f)
       else (1, direct e)
 
+/-- pipelined mode: the reply of a dispatched batch is read by the receiver
+    goroutine, whose `handleError` closes the run — no re-send:
+    ```go
+    if MOVED || ASK || CROSSSLOT { if CanTransaction && IsCluster { err = handleDirectError(err) } }
+    replayWait.Close(err)
+    ``` -/
+def recvFinal (m : SMode) : SErr → Final
+  | .other => .other
+  | e => if m.txnCluster then direct e else .other   -- plain: the raw ErrMove/ErrAsk closes the run
+
 end GunYu.ClusterSender
